@@ -471,11 +471,14 @@ func corpusGen(w *gal.Writer) {
 	genCase(w, genIn{Image: img, Layers: []hashT{l1}, OSVer: "3.0", VCS: "https://example.com/repo", Apks: nil}, "corpus/empty-installed", "")
 	genCase(w, genIn{Image: img, Layers: nil, OSVer: "3.0", Apks: []apkT{musl}}, "corpus/no-layers", "Layers[0] panics")
 	genCase(w, genIn{Image: img, Layers: []hashT{l1, l1}, OSVer: "3.0", Apks: []apkT{musl}}, "corpus/same-layer-twice", "")
-	// identifier collisions (C11-F1)
+	// identifier collisions: regression replays of C11-F1 (fixed by 7c2586e: the second element's id is numbered)
 	genCase(w, base([]apkT{{"gtk+", "3.24-r0", sum(3), ""}, {"gtkC43", "3.24-r0", sum(4), ""}}, nil), "corpus/id-collision", "gtk+ vs gtkC43: + is rewritten to C43")
 	genCase(w, base([]apkT{{"a:b", "1-r0", sum(3), ""}, {"a-b", "1-r0", sum(4), ""}}, nil), "corpus/id-collision", ": is rewritten to -")
 	genCase(w, base([]apkT{{"foo-1", "2-r0", sum(3), ""}, {"foo", "1-2-r0", sum(4), ""}}, nil), "corpus/id-collision", "name-version boundary is ambiguous")
 	genCase(w, base([]apkT{{"libstdc++", "13.2-r0", sum(3), ""}, {"libstdcC43C43", "13.2-r0", sum(4), ""}, {"zlib", "1.3-r0", sum(5), ""}}, nil), "corpus/id-collision", "")
+	genCase(w, base([]apkT{{"gtk+", "1-r0", sum(3), ""}, {"gtkC43", "1-r0", sum(4), ""}, {"gtkC4C51", "1-r0", sum(5), ""}, {"gtk:", "1-r0", sum(6), ""}}, nil), "corpus/id-collision", "three apks on one id: -2, -3; a fourth one apart")
+	genCase(w, base([]apkT{{"gtk+", "3.24-r0", sum(3), ""}, {"gtk+", "3.24-r0-2", sum(4), ""}, {"gtkC43", "3.24-r0", sum(5), ""}}, nil), "corpus/id-collision", "the numbered id -2 is itself taken by another apk: -3")
+	genCase(w, base([]apkT{{"gtk+", "3.24-r0", sum(3), ""}, {"gtkC43", "3.24-r0", sum(4), ""}, {"gtk+", "3.24-r0-2", sum(5), ""}}, nil), "corpus/id-collision", "an apk whose own id equals an id that was handed out by numbering: numbered in turn")
 	genCase(w, base([]apkT{musl, musl}, nil), "corpus/same-apk-twice", "identical entries collapse to one element")
 	genCase(w, base([]apkT{{"foo", "1.0-r0", sum(1), ""}, {"foo", "2.0-r0", sum(2), ""}, {"foo-doc", "2.0-r0", sum(3), ""}}, nil), "corpus/same-name-two-versions", "")
 	genCase(w, base([]apkT{{"py3.11-foo_bar", "1.0~rc1-r0", sum(1), ""}, {"café", "1", sum(2), ""}, {"", "", nil, ""}, {strings.Repeat("long-name+", 40), "1.0", sum(9), ""}}, nil), "corpus/odd-names", "")
@@ -562,6 +565,12 @@ func corpusGen(w *gal.Writer) {
 	barSrc := pkgT{ID: "SPDXRef-Package-upstream-bar", Name: "bar", Version: "2.0"}
 	genCase(w, base([]apkT{foo, bar}, []fsEnt{{"foo-1.0-r0.spdx.json", kDoc, &docT{Pkgs: []pkgT{fooE, barSrc}, Desc: []string{fooE.ID}, Rels: []relT{{fooE.ID, "GENERATED_FROM", barSrc.ID}}}},
 		{"bar-2.0-r1.spdx.json", kDoc, barOnly}}), "corpus/rename-earlier-element", "")
+	// an element imported through foo's document carries the id Generate mints for the later apk zlib+ under another name:
+	// zlib+'s own element is numbered instead of being dropped by the de-duplication
+	zl := apkT{"zlib+", "1.3-r0", sum(9), ""}
+	squat := pkgT{ID: spdx.VerifStringToIdentifier("SPDXRef-Package-" + spdx.VerifStringToIdentifier("SPDXRef-Package-"+img) + "-zlib+-1.3-r0"), Name: "squatter", Version: "0"}
+	genCase(w, base([]apkT{foo, zl}, []fsEnt{{"foo-1.0-r0.spdx.json", kDoc, &docT{Pkgs: []pkgT{fooE, squat}, Desc: []string{fooE.ID}, Rels: []relT{{fooE.ID, "DEPENDS_ON", squat.ID}}}}}),
+		"corpus/id-collision", "an imported element holds the id of a later apk's own element")
 }
 
 var nameAtoms = []string{"lib", "ssl", "gtk", "+", "++", "C43", "-", "_", ".", ":", "py3", "foo", "bar", "z", "1", "2", "-dev", "-doc", "@", "~", "C", "4", "3", " ", "é",
